@@ -67,7 +67,8 @@ def ini_doc(rng, idx, outdir):
                 # @INCLUDE of a generated side file (at line start, acyclic, content ends with a newline)
                 fname = 'i%05d_inc%d.conf' % (idx, len(side_files))
                 sub = gen_items(rng.randint(0, 4), depth + 1)
-                side_files[fname] = '\n'.join(sub) + '\n'
+                # the directive's own line end terminates the last included line, so a side file may lack a final newline
+                side_files[fname] = '\n'.join(sub) + ('\n' if (rng.random() < 0.5 or not sub) else '')
                 lines.append('@INCLUDE ' + rng.choice(['', ' ']) + fname + rng.choice(['', ' ', '\t']))
             else:
                 # entry
